@@ -88,6 +88,15 @@ impl Property for C05 {
             Family::fixed("corpus", corpus),
         ]
     }
+    fn fuzz(&self) -> Option<crate::engine::FuzzSpec<Case>> {
+        fn decode(data: &[u8]) -> Option<Case> {
+            let (k, doc) = crate::fuzzrider::split(data)?;
+            let input = String::from_utf8(doc.to_vec()).ok()?;
+            let t = crate::fuzzrider::cfg_table();
+            Some(Case { input, c1: t[k].clone(), c2: t[crate::fuzzrider::second_cfg(k)].clone(), fam: "fuzz".into() })
+        }
+        Some(crate::engine::FuzzSpec { target: "c05_fixpoint", secs: 180, decode })
+    }
     fn judge(&self, case: &Case, _strict: bool) -> Verdict {
         // the property speaks about documents whose outermost element is <svg>
         let rooted = match crate::sxml::parse_document(&case.input) {
